@@ -9,7 +9,7 @@ def sig(t, step, clause):
     stage = "parse" if p["parsed"] != "ok" else ("ser" if p["ser"] != "ok" else ("reparse" if p["reparse"] != "ok" else "reser"))
     exc = {"parse": p["parsed"], "ser": p["ser"], "reparse": p["reparse"], "reser": p["reser"]}[stage]
     if clause == "ReturnsInBoundedTime":
-        what = a.get("opener", "") + "/" + a.get("ctx", "") if a["kind"] == "nest" else a["kind"]
+        what = a.get("opener", "") + "/" + a.get("ctx", "") if a["kind"] == "nest" else (a["kind"] + ":" + a.get("name", "") + ":" + a.get("shape", "") if a["kind"] == "propvalue" else a["kind"])
         return "C01|Soup|%s|%s" % (clause, what)
     return "C01|Soup|%s|%s|%s@%s" % (clause, stage, exc, p.get("where", ""))
 
@@ -40,7 +40,18 @@ def sheets(tier, seed):
 
 def main(tier, seed):
     run = Run("C01", tier, seed)
-    rows = matrix.enumerate_rows(run, "Soup", "Soup_%s.cfg" % tier, heap="8g")
+    import os, sys
+    sys.path.insert(0, "/repo")
+    import cssutils.profiles
+    names = sorted({n for g in cssutils.profiles.properties for n in cssutils.profiles.properties[g]})
+    if tier == "quick":
+        names = [n for i, n in enumerate(names) if (i + seed) % 4 == 0]
+    path = os.path.join(run.work, "names.ndjson")
+    with open(path, "w") as f:
+        for n in names:
+            f.write(json.dumps({"name": n}) + "\n")
+    run.notes["property_names_for_value_shapes"] = len(names)
+    rows = matrix.enumerate_rows(run, "Soup", "Soup_%s.cfg" % tier, heap="8g", env={"NAMES_FILE": path})
     matrix.judge(run, "SoupTrace", "adapters.soup", "run_row", rows, sig, corrupt, chunk=4000,
                  what=lambda t, s: json.dumps({k: v for k, v in t["item"].items() if k in ("kind", "ctx", "toks", "opener", "depth", "text", "graph", "fetch", "entry")})[:300],
                  nontrivial=lambda t: t["item"]["text"] + str(t["item"].get("entry")) + str(t["item"].get("graph")))
